@@ -180,6 +180,7 @@ fn iv_str(i: &Interval) -> String {
 }
 
 fn pair_str(p: &ContiguousIntervalPair) -> String {
+    touch(p);
     format!("{}>{}", iv_str(p.reference()), iv_str(p.query()))
 }
 
@@ -250,15 +251,29 @@ fn seq_str(s: &Sequence) -> String {
     )
 }
 
+/// every value and every error the library hands out is also printed (Display and Debug), as any caller's
+/// log line or `?`-propagated message would: a formatter that panics shows up as a panic of the operation
+fn touch<T: std::fmt::Display + std::fmt::Debug>(x: &T) {
+    let _ = x.to_string();
+    let _ = format!("{:?}", x);
+}
+
+fn touch_dbg<T: std::fmt::Debug>(x: &T) {
+    let _ = format!("{:?}", x);
+}
+
 fn hdr_str(h: &HeaderRecord) -> String {
+    touch(h);
     format!("{} {} {} {}", h.score(), seq_str(h.reference_sequence()), seq_str(h.query_sequence()), h.id())
 }
 
 fn rec_str(r: &DataRecord) -> String {
+    touch(r);
     format!("{} {} {} {}", r.size(), opt_str(r.dt()), opt_str(r.dq()), kind_str(r.kind()))
 }
 
 fn line_str(l: &Line) -> String {
+    touch(l);
     match l {
         Line::Empty => "empty".into(),
         Line::Header(h) => format!("header {}", hdr_str(h)),
@@ -274,6 +289,7 @@ fn line_err_text(e: &line::Error) -> &str {
 }
 
 fn sec_err_str(e: &sections::Error) -> String {
+    touch(e);
     match e {
         sections::Error::Builder(_) => "E builder".into(),
         #[allow(unreachable_patterns)]
@@ -291,6 +307,7 @@ fn sec_err_str(e: &sections::Error) -> String {
 }
 
 fn sec_str(s: &Section) -> String {
+    touch_dbg(s);
     let mut out = format!("S {}", hdr_str(s.header()));
     for r in s.data().iter() {
         out.push_str(" | ");
@@ -300,6 +317,7 @@ fn sec_str(s: &Section) -> String {
 }
 
 fn st_err_str(e: &stepthrough::Error) -> &'static str {
+    touch(e);
     match e {
         stepthrough::Error::IntervalStepthroughOutOfBounds(..) => "E oob",
         stepthrough::Error::Interval(_) => "E interval",
@@ -369,6 +387,7 @@ fn op_seq(parts: [String; 5]) -> String {
 }
 
 fn pair_err_str(e: &PairError) -> String {
+    touch(e);
     use omics::coordinate::interval::ClampError;
     use omics::coordinate::interval::Error as IE;
     match e {
@@ -428,6 +447,7 @@ fn op_lapper(args: &[&str]) -> String {
 }
 
 fn io_err_str(e: &io::Error) -> &'static str {
+    touch(e);
     if e.kind() == io::ErrorKind::InvalidData {
         if e.get_ref().map(|r| r.is::<line::Error>()).unwrap_or(false) {
             "err"
@@ -653,6 +673,15 @@ fn op_step(hdr: Vec<u8>, recs: Vec<Vec<u8>>, cap: usize) -> String {
                 bad = Some("with_data.count".into());
             }
         }
+        // iterators abandoned half-way (dropped after k items) — nothing to compare, but the drop must not panic
+        for k in 0..=n.min(4) {
+            if let Ok(st) = section.stepthrough_with_data() {
+                let _ = st.take(k).count();
+            }
+            if let Ok(st) = section.stepthrough() {
+                let _ = st.take(k).count();
+            }
+        }
         if let Some(b) = bad {
             out.push(format!("plain=differ:{}:adaptor-{}", n, b.replace(' ', "")));
             return out.join(" ; ");
@@ -705,6 +734,7 @@ fn dict_str(d: &machine::ChromosomeDictionary) -> String {
 }
 
 fn build_err_str(e: &machine::builder::Error) -> String {
+    touch(e);
     use machine::builder::Error as E;
     match e {
         E::InvalidSections(e) => format!("err sections {}", sec_err_str(e)),
@@ -806,8 +836,13 @@ fn op_ops(src: Vec<Ev>, ops: &str) -> String {
             out.push(match reader.read_line(&mut buf) {
                 Ok(None) => "none".into(),
                 Ok(Some(l)) => format!("ok {}", line_str(&l)),
-                Err(reader::Error::Io(e)) => format!("err {}", io_err_str(&e)),
-                Err(reader::Error::Line(_)) => "err err".into(),
+                Err(e) => {
+                    touch(&e);
+                    match e {
+                        reader::Error::Io(e) => format!("err {}", io_err_str(&e)),
+                        reader::Error::Line(_) => "err err".into(),
+                    }
+                }
             });
         } else if let Some(k) = op.strip_prefix("lines") {
             let k: usize = match k.parse() {
